@@ -96,7 +96,7 @@ func propSpecs() map[string]*PropSpec {
 				}
 				return !strings.Contains(o.Desc, "[C")
 			},
-			Decided:    []string{"no panic (nil dereference, failed type assertion, index/slice bounds, nil-map write, division, overflow, negative Repeat count, template/regexp Must) in any non-generated function of internal/model, internal/parser, cmd", "termination of every loop and every recursive function (variants)", "supporting preconditions, loop invariants and postconditions the safety proofs rely on", "cycle check, edge coverage: containsCycle marks a packet done only when every packet it refers to (object fields, inline or not, and every declared match alternative) is done; a done mark is never taken back; a false result leaves the packet done (pre/postcondition cycleClosed, carried by the driving loop of ResolveDependencies)"},
+			Decided:    []string{"no panic (nil dereference, failed type assertion, index/slice bounds, nil-map write, division, overflow, negative Repeat count, template/regexp Must) in any non-generated function of internal/model, internal/parser, cmd", "termination of every loop and every recursive function (variants)", "supporting preconditions, loop invariants and postconditions the safety proofs rely on", "cycle check, edge coverage: containsCycle marks a packet (of those that existed at entry; the check allocates none) done only when every packet it refers to (object fields, inline or not, and every declared match alternative) is done; a done mark is never taken back; a false result leaves the packet done (pre/postcondition cycleClosed, carried by the driving loop of ResolveDependencies)"},
 			OutOfReach: []string{"ANTLR runtime and generated parser (trusted w.r.t. grammar-derived tree contracts)", "cgo boundary, cobra dispatch, OS", "that a closed, fully marked reference graph on which the cycle check met no in-progress packet is acyclic (white-path theorem; needs ghost finishing times) - assumed as the ghost rank of the model invariants"}},
 		"C12": {ID: "C12", Faults: true,
 			Bounded: []string{"BOUNDED (not counted as proved): every fault class of the property injected at each site of a base program produces a diagnostic carrying the line of the offending declaration, and well-formed programs using every documented construct and option value produce none (real ParseFile)"},
@@ -104,9 +104,9 @@ func propSpecs() map[string]*PropSpec {
 			Own: func(o *Obligation) bool { return strings.Contains(o.Name, "C12:") },
 			Decided: []string{"D1 AddOption: unknown name / illegal value / duplicate => exactly one (at least one for illegal) new diagnostic carrying the declaration's line, accepted options stored without diagnostic", "D2 AddPacket: duplicate name, second root => one diagnostic with the packet's line and the model unchanged; otherwise stored in map and list, no diagnostic", "D3 AddMetaData: duplicate => one diagnostic with its line; otherwise stored", "D8 Compile: a parse error or any model diagnostic => non-nil error, no file-system effect, WriteCodeToFile never called",
 				"D4 length fields occur only in the root packet and only as its length field (VisitPacketDefinition)", "D5 a match key seen earlier in the same match yields a diagnostic (VisitMatchFieldDeclaration)",
-				"D6 resolveFields / ResolveDependencies: unless a new diagnostic was added, every object field of every packet refers to a declared packet and every match alternative names a declared packet (top-level fields and, one nesting level lifted, the fields of inline objects; set-once history constraint on the reference: resolved at most once); carried by contract through VisitPacket and ParseFile to Compile: a nil result means every generator was handed a model whose references are all resolved", "D9 VisitPacket submits every packet definition: without a new diagnostic the model holds exactly one packet per packetDefinition child of the tree, with pairwise distinct names; AddPacket only appends to the list and never removes a key (D2-frame); every field definition of a packet (VisitPacketDefinition) and of an inline object (VisitInerObjectField) is in the model unless a diagnostic was added",
+				"D6 resolveFields / ResolveDependencies: unless a new diagnostic was added, every object field of every packet refers to a declared packet and every match alternative names a declared packet (top-level fields; set-once history constraint on the reference: resolved at most once); carried by contract through VisitPacket and ParseFile to Compile: a nil result means every generator was handed a model whose top-level references are all resolved", "D9 VisitPacket submits every packet definition: without a new diagnostic the model holds exactly one packet per packetDefinition child of the tree, with pairwise distinct names; AddPacket only appends to the list and never removes a key (D2-frame); every field definition of a packet (VisitPacketDefinition) and of an inline object (VisitInerObjectField) is in the model unless a diagnostic was added",
 				"D7 a packet's fields have pairwise distinct names (VisitPacketDefinition)", "line provenance: every diagnostic added by the visitor carries a line >= 1 taken from a token of the offending declaration; the membership test behind illegal option values is exact (contains)"},
-			OutOfReach: []string{"text of ANTLR's own syntax messages", "that every option declaration and MetaData entry is submitted to the model (the analogue of D9 for the map-valued tables; no map cardinality in the engine), and references nested more than one inline level deep as seen from the caller: covered by the fault corpus only", "acyclicity of references: the cycle check is under an edge-coverage contract (C11), the step from a closed marked graph to acyclicity is assumed"}},
+			OutOfReach: []string{"text of ANTLR's own syntax messages", "that every option declaration and MetaData entry is submitted to the model (the analogue of D9 for the map-valued tables; no map cardinality in the engine), and references nested in inline objects as seen from the caller (proved inside the recursion of resolveFields only): covered by the fault corpus only", "acyclicity of references: the cycle check is under an edge-coverage contract (C11), the step from a closed marked graph to acyclicity is assumed"}},
 		"C16": {ID: "C16", Kinds: []string{"POST", "PRE", "SAFE"}, FuncMatch: regexp.MustCompile(`cmd\.|parser\.(FormatPacketDsl|WriteCodeToFile)$`),
 			Own:        func(o *Obligation) bool { return strings.Contains(o.Name, "C16:") },
 			Decided:    []string{"format: exactly one call of the formatter on the given text; on a formatter error exit status 1 and no file-system effect; with -f exactly one WriteFile(file, result); without -f exactly one stdout line result+\"\\n\" and no file-system effect", "C export: formatter called on GoString(dsl), returns CString(result) or CString(\"Error:\"+err)", "compile: ParseFile called once on the input; see evidence for the per-target clauses"},
